@@ -97,7 +97,9 @@ theorem merge_is_resultpath_then_outputpath (data ctx result state placed : Json
     mergeResult data ctx result state = applyPath placed ctx (pathArg state "OutputPath") := by
   simp [mergeResult, h]
 
-/-- Task: InputPath, Parameters, the task, ResultSelector, ResultPath (raw input), OutputPath. -/
+/-- Task: InputPath, Parameters, the task, ResultSelector, ResultPath (raw input), OutputPath.  (`ha`: the worker
+answers at `tEnd`, before the time limit in force — the earlier of the Task's own, `own`: from `TimeoutSeconds` or
+`TimeoutSecondsPath`, and the execution's.) -/
 theorem task_pipeline (env : Env) (fuel : Nat) (states : Json) (name fn : Str)
     (state data ctx input params v result out : Json) (retries : Nat) (st : St)
     (h : stateType state = S "Task")
@@ -105,7 +107,9 @@ theorem task_pipeline (env : Env) (fuel : Nat) (states : Json) (name fn : Str)
     (hi : applyPath data ctx (pathArg state "InputPath") = .ok input)
     (hp : tmplOpt env input ctx (fld state "Parameters") = .ok params)
     (tEnd : Rat)
-    (ha : taskArrival (env.delay fn params (bump st.counts (fn, params)).1) (taskDeadline state st.clock) st.clock
+    (own : Option Rat) (hown : taskOwnDeadline state data ctx st.clock = .ok own)
+    (ha : taskArrival (env.delay fn params (bump st.counts (fn, params)).1)
+        ((taskLimit own env.deadline st.clock).map (·.t)) st.clock
       = some (tEnd, false))
     (hv : taskReply env.maxData (env.task fn params (bump st.counts (fn, params)).1) = .ok v)
     (hs : tmplOpt env v ctx (fld state "ResultSelector") = .ok result)
@@ -119,7 +123,7 @@ theorem task_pipeline (env : Env) (fuel : Nat) (states : Json) (name fn : Str)
   have h3 : (S "Task" = S "Fail") = False := by decide
   have h4 : (S "Task" = S "Wait") = False := by decide
   have h5 : (S "Task" = S "Choice") = False := by decide
-  simp [runState, h, h1, h2, h3, h4, h5, hr, hi, hp, ha, taskOutcome, taskEv, hv, hs, hm]
+  simp [runState, h, h1, h2, h3, h4, h5, hr, hi, hp, hown, ha, taskOutcome, taskEv, hv, hs, hm]
 
 /-- a worker's reply whose text is longer than the size limit is the error `States.DataLimitExceeded`,
 whatever it says; a reply within the limit is read by `decodeReply` -/
@@ -140,7 +144,9 @@ theorem task_error_goes_to_handler (env : Env) (fuel : Nat) (states : Json) (nam
     (hi : applyPath data ctx (pathArg state "InputPath") = .ok input)
     (hp : tmplOpt env input ctx (fld state "Parameters") = .ok params)
     (tEnd : Rat)
-    (ha : taskArrival (env.delay fn params (bump st.counts (fn, params)).1) (taskDeadline state st.clock) st.clock
+    (own : Option Rat) (hown : taskOwnDeadline state data ctx st.clock = .ok own)
+    (ha : taskArrival (env.delay fn params (bump st.counts (fn, params)).1)
+        ((taskLimit own env.deadline st.clock).map (·.t)) st.clock
       = some (tEnd, false))
     (hv : taskReply env.maxData (env.task fn params (bump st.counts (fn, params)).1) = .err e msg) :
     runState env (fuel + 1) states name state data ctx retries st =
@@ -152,7 +158,7 @@ theorem task_error_goes_to_handler (env : Env) (fuel : Nat) (states : Json) (nam
   have h3 : (S "Task" = S "Fail") = False := by decide
   have h4 : (S "Task" = S "Wait") = False := by decide
   have h5 : (S "Task" = S "Choice") = False := by decide
-  simp [runState, h, h1, h2, h3, h4, h5, hr, hi, hp, ha, taskOutcome, taskEv, hv]
+  simp [runState, h, h1, h2, h3, h4, h5, hr, hi, hp, hown, ha, taskOutcome, taskEv, hv]
 
 /-- after a successful fan-out: ResultSelector on the array of results, ResultPath into the
 fan-out state's *raw* input (not its effective input), OutputPath, then Next/End -/
@@ -169,7 +175,8 @@ state's own Retry/Catch, with the fan-out state's raw input -/
 theorem fanout_failure_goes_to_handler (env : Env) (fuel : Nat) (states : Json) (name : Str)
     (state data ctx : Json) (e : Str) (c : Option Json) (f : Bool) (retries : Nat) (st : St) :
     ∃ msg, joinAndLeave env (fuel + 1) states name state data ctx retries (.error (.failed e c f)) st =
-      handleErr env fuel states name state data ctx retries e msg { st with fanFail := true } := by
+      handleErr env fuel states name state data ctx retries e msg
+        { st with fanFail := st.fanFail || decide (e ≠ execTimeoutName) } := by
   cases h : isTrue c with
   | false => exact ⟨[], by simp [joinAndLeave, h]⟩
   | true => exact ⟨S "m", by simp [joinAndLeave, h]⟩
@@ -220,10 +227,12 @@ theorem parallel_results_in_branch_order (env : Env) (fuel : Nat) (bs : List Jso
       · simp at h
 
 /-- Map yields the iteration outputs in item order, iteration k seeing item k (through the
-ItemSelector when there is one, with `$$.Map.Item.Index = k`). -/
+ItemSelector when there is one, with `$$.Map.Item.Index = k`).  (`false`: no iteration has failed when
+the Map state starts its iterations — the flag `runItems` carries since it stops launching batches after a
+failure.) -/
 theorem map_results_in_item_order (env : Env) (fuel : Nat) (proc : Json) (sel : Option Json) (input : Json)
     (items : List Json) (i0 mc : Nat) (be : Rat) (ctx : Json) (st st' : St) (vs : List Json)
-    (h : runItems env fuel proc sel input items i0 mc be ctx st = (.ok vs, st')) :
+    (h : runItems env fuel proc sel input items i0 mc be ctx false st = (.ok vs, st')) :
     vs.length = items.length ∧
     ∀ k (hk : k < items.length), ∃ f s1 s2 start states params v,
       fldStr proc "StartAt" = some start ∧ fld proc "States" = some states ∧
@@ -241,7 +250,7 @@ theorem map_results_in_item_order (env : Env) (fuel : Nat) (proc : Json) (sel : 
     cases fuel with
     | zero => simp [runItems] at h
     | succ n =>
-      simp only [runItems] at h
+      simp only [runItems, Bool.false_eq_true, and_false, if_false, Bool.false_or] at h
       generalize (if mc ≠ 0 ∧ i0 ≠ 0 ∧ i0 % mc = 0 then
           (st.waitUntil be).batch (ctxStateName ctx) (List.replicate (min mc (items.length + 1)) ((fldStr proc "StartAt").getD []))
         else st) = st0 at h
@@ -253,13 +262,13 @@ theorem map_results_in_item_order (env : Env) (fuel : Nat) (proc : Json) (sel : 
           generalize hr : runFrom env n states start params ctx 0 ((st0.push (.iterStarted (ctxStateName ctx) i0)).startBranch) = r at h
           obtain ⟨r1, s1⟩ := r
           simp only at h
-          generalize hrest : runItems env n proc sel input items (i0 + 1) mc (rmax be s1.clock) ctx
+          generalize hrest : runItems env n proc sel input items (i0 + 1) mc (rmax be s1.clock) ctx (isFailed r1)
             (((s1.iterEnd (ctxStateName ctx) i0 r1).endBranch (isFailed r1)).at st0.clock) = rr at h
           obtain ⟨rest, s2⟩ := rr
           simp only at h
           obtain ⟨v, vs', e1, e2, e3, _⟩ := fanCombine_ok h
           subst e1 e2 e3
-          have := ih n (i0 + 1) _ _ s2 vs' hrest
+          have := ih n (i0 + 1) _ _ s2 vs' (by simpa [isFailed] using hrest)
           refine ⟨by simp [this.1], ?_⟩
           intro k hk
           cases k with
@@ -312,20 +321,20 @@ theorem choice_no_match (input ctx : Json) (rs : List Json)
 theorem status_succeeded_iff_done (env : Env) (fuel : Nat) (asl input ctx : Json) (start : Str) (states : Json)
     (h1 : fldStr asl "StartAt" = some start) (h2 : fld asl "States" = some states) :
     (run env fuel asl input ctx).status = S "SUCCEEDED" ↔
-      ∃ d, (runFrom env fuel states start input ctx 0 {}).1 = .done d := by
+      ∃ d, (runFrom (env.forMachine asl) fuel states start input ctx 0 {}).1 = .done d := by
   unfold run runCore Outcome.ofRun
   simp only [h1, h2]
-  generalize runFrom env fuel states start input ctx 0 {} = r
+  generalize runFrom (env.forMachine asl) fuel states start input ctx 0 {} = r
   obtain ⟨r1, s1⟩ := r
   cases r1 <;> simp <;> decide
 
 theorem status_failed_iff_failed (env : Env) (fuel : Nat) (asl input ctx : Json) (start : Str) (states : Json)
     (h1 : fldStr asl "StartAt" = some start) (h2 : fld asl "States" = some states) :
     (run env fuel asl input ctx).status = S "FAILED" ↔
-      ∃ e c f, (runFrom env fuel states start input ctx 0 {}).1 = .failed e c f := by
+      ∃ e c f, (runFrom (env.forMachine asl) fuel states start input ctx 0 {}).1 = .failed e c f := by
   unfold run runCore Outcome.ofRun
   simp only [h1, h2]
-  generalize runFrom env fuel states start input ctx 0 {} = r
+  generalize runFrom (env.forMachine asl) fuel states start input ctx 0 {} = r
   obtain ⟨r1, s1⟩ := r
   cases r1 <;> simp <;> decide
 
@@ -362,7 +371,7 @@ private def par2 : Json := .obj [(k "StartAt", .str (k "B")), (k "States", .obj 
   .obj [(k "Type", .str (k "Pass")), (k "Result", .num 2), (k "End", .bool true)])])]
 example : (runBranches envK 10 [par, par2] (.obj []) (.obj []) {}).1 = .ok [.num 1, .num 2] := by rfl
 
-example : (runItems envK 10 par none (.obj []) [.num 7, .num 8] 0 0 0 (.obj []) {}).1 = .ok [.num 1, .num 1] := by rfl
+example : (runItems envK 10 par none (.obj []) [.num 7, .num 8] 0 0 0 (.obj []) false {}).1 = .ok [.num 1, .num 1] := by rfl
 
 example : Lite.choose.go (.obj [(k "n", .num 3)]) (.obj [])
     [.obj [(k "Variable", .str (k "$.n")), (k "NumericEquals", .num 1), (k "Next", .str (k "X"))],
